@@ -377,3 +377,50 @@ CHECKS["C18"] = {
         J("loader", VSTORE, "TestC18Loader", {"shards": 6, "checks": 500}, {"shards": 16, "checks": 20000}),
     ],
 }
+
+DRV_PREBUILD = [{"cmd": ["go", "build", "-tags", "verif", "-trimpath", "-o", "{bin}/drv", "./zz_verif/vtrace/drv"]}]
+
+CHECKS["_SMOKE"] = {"level": "exploration", "rule": "", "prebuild": DRV_PREBUILD, "disabled": "internal smoke test",
+                    "jobs": [J("smoke", VTRACE, "TestTracerSmoke", {"shards": 1}, rapid=False)]}
+
+CHECKS["C08"] = {
+    "level": "fault_enumeration",
+    "engine": "E5 fstrace",
+    "prebuild": DRV_PREBUILD,
+    "level_text": "Every add / update / init execution of a generated scenario (users with auxiliary data from none to 300 KiB, both algorithms, user/admin) is run by a driver process under a ptrace tracer. "
+                  "At every mutating or fsync system call of the operation the store directory is snapshotted: these are all the distinct file-system states at syscall boundaries (process-kill model). "
+                  "From the same trace every post-crash image of the stated persistence model is enumerated (all subsets of un-fsynced directory-entry changes x durable / intermediate / torn / empty file contents) "
+                  "and each distinct image is opened by a fresh store instance and judged.",
+    "level_note": "Trusted: the tracer's syscall table (DESIGN.md appendix C; a call outside it that touches the sandbox makes the case inconclusive), the persistence model exactly as the property states it "
+                  "(harness/vtrace/crash.go), refimpl. Enumeration is complete per traced execution (image count capped at 4000 per boundary, never reached); executions are generated.",
+    "technique": "crash-point enumeration over ptrace-captured executions generated by rapid; recovery oracle = fresh store instance on every enumerated crash image",
+    "oracle": "target file absent | empty (add/init only) | byte-identical old | byte-identical new (new first line verifies, aux complete); authenticate(old) iff old, (new) iff new, third/empty never; "
+              "other users byte-identical; Check still passes; nothing new outside .tmp; final name never written in place",
+    "rule": "a case = one traced execution (15-40 syscall boundaries, up to thousands of images). Non-trivial = an image taken strictly between the first mutation and the final directory fsync; "
+            "distinct = distinct (operation, aux class, syscall about to run, number of pending entry changes)",
+    "assumptions": ["persistence model: file data durable after fsync(file), entry changes after fsync(directory); rename is atomic; a cross-directory rename's removal is never durable without its arrival"],
+    "required_classes": {"all": ["image-state:old", "image-state:new", "image-state:absent", "image-state:empty", "op:update", "op:add", "op:init", "aux:big300k"]},
+    "jobs": [
+        J("crash", VTRACE, "TestC08CrashAtomicity", {"shards": 8, "checks": 12}, {"shards": 16, "checks": 400}),
+    ],
+}
+
+CHECKS["C09"] = {
+    "level": "fault_enumeration",
+    "engine": "E5 fstrace",
+    "prebuild": DRV_PREBUILD,
+    "level_text": "Generated histories of 1..7 mutating operations (init, add, update, set-admin, remove; succeeding and failing) run by one driver process under the ptrace tracer. The persistence-model state "
+                  "(durable entries, pending entry changes, durable / seen file contents) is carried across the whole history; immediately after every acknowledged operation all post-crash images "
+                  "are enumerated and each must equal the acknowledged state; at every earlier syscall boundary every image must only show complete records under final names.",
+    "level_note": "Trusted: as C08 (tracer table, stated persistence model). The crash instants are 'right after the success report' and every syscall boundary before it; the loss sets are enumerated completely per execution.",
+    "technique": "fault enumeration (all persistence-model loss sets at every acknowledgement) over ptrace-captured histories generated by rapid",
+    "oracle": "for every image reachable right after an ok: user files outside .tmp are byte-identical to the file system's (the acknowledged state, including all earlier acknowledged effects); "
+              "for every image at any boundary: every non-empty file under a final name starts with a complete canonical record",
+    "rule": "a case = one traced history. Non-trivial = an acknowledgement taken while entry changes are still pending somewhere, and every distinct operation-kind sequence; "
+            "distinct = distinct (operation, number of pending changes, position) / distinct kind sequence",
+    "assumptions": ["same persistence model as C08"],
+    "required_classes": {"all": ["acked:setadmin", "acked:remove", "acked:add", "acked:update", "acked:init"]},
+    "jobs": [
+        J("durability", VTRACE, "TestC09Durability", {"shards": 8, "checks": 15}, {"shards": 16, "checks": 500}),
+    ],
+}
